@@ -6,6 +6,7 @@ package main
 
 import (
 	"fmt"
+	"io"
 	"strings"
 
 	"github.com/alttpo/snes/emulator"
@@ -26,6 +27,16 @@ type runCase struct {
 	cbs    []uint32
 	tag2   string
 	latch  byte // CPU.Interrupt on entry (1 = interruptNone, 2 = NMI, 3 = IRQ, 0 = fresh CPU)
+	lkind  int  // which kind of Logger (see loggerKinds); the model only knows whether there is one
+	long   bool // a loop that runs for hundreds of iterations
+}
+
+// input: the replayable case line plus the kind of Logger object used on the Go side
+func (c runCase) input(variant string) string {
+	if !c.logger {
+		return c.line(variant)
+	}
+	return c.line(variant) + " logger=" + loggerKinds[c.lkind]
 }
 
 func (c runCase) line(variant string) string {
@@ -57,6 +68,66 @@ func (w *countingWriter) Write(p []byte) (int, error) {
 		w.lines = append(w.lines, string(p))
 	}
 	return len(p), nil
+}
+
+// Loggers implementing the optional interfaces System.RunUntil looks for (emulator.Reserver, emulator.Committer), each alone and
+// together, and one that also offers the optional interfaces of the standard library's writers. All record through Write.
+var loggerKinds = []string{"plain io.Writer", "Writer+Reserver", "Writer+Committer", "Writer+Reserver+Committer", "Writer+Reserver+Committer+StringWriter/ByteWriter/ReaderFrom/Flush/Sync/Close"}
+
+type reservingWriter struct {
+	countingWriter
+	reserved []int
+}
+
+func (w *reservingWriter) Reserve(n int) { w.reserved = append(w.reserved, n) }
+
+type committingWriter struct {
+	countingWriter
+	commits int
+}
+
+func (w *committingWriter) Commit() { w.commits++ }
+
+type bufferedLogWriter struct {
+	countingWriter
+	reserved []int
+	commits  int
+}
+
+func (w *bufferedLogWriter) Reserve(n int) { w.reserved = append(w.reserved, n) }
+func (w *bufferedLogWriter) Commit()       { w.commits++ }
+
+type richLogWriter struct{ bufferedLogWriter }
+
+func (w *richLogWriter) WriteString(s string) (int, error) { return w.Write([]byte(s)) }
+func (w *richLogWriter) WriteByte(b byte) error            { _, err := w.Write([]byte{b}); return err }
+func (w *richLogWriter) ReadFrom(r io.Reader) (int64, error) {
+	b, err := io.ReadAll(r)
+	n, _ := w.Write(b)
+	return int64(n), err
+}
+func (w *richLogWriter) Flush() error { return nil }
+func (w *richLogWriter) Sync() error  { return nil }
+func (w *richLogWriter) Close() error { return nil }
+func (w *richLogWriter) Grow(n int)   {}
+
+func newLogger(kind int) (io.Writer, *countingWriter) {
+	switch kind {
+	case 1:
+		w := &reservingWriter{}
+		return w, &w.countingWriter
+	case 2:
+		w := &committingWriter{}
+		return w, &w.countingWriter
+	case 3:
+		w := &bufferedLogWriter{}
+		return w, &w.countingWriter
+	case 4:
+		w := &richLogWriter{}
+		return w, &w.countingWriter
+	}
+	w := &countingWriter{}
+	return w, w
 }
 
 type runObs struct {
@@ -129,8 +200,7 @@ func runSystem(c runCase) (o runObs) {
 	var w *countingWriter
 	s.Logger = nil
 	if c.logger {
-		w = &countingWriter{}
-		s.Logger = w
+		s.Logger, w = newLogger(c.lkind)
 	}
 	func() {
 		defer func() {
@@ -189,6 +259,7 @@ func runAltLoop(c runCase) (o runObs) {
 // independent replay by single steps, no callbacks: what RunUntil must have done
 type replay struct {
 	pcs    []uint32 // address of each executed instruction
+	opAt   []uint32 // where its opcode was fetched (differs from pcs only when the first Step entered a pending interrupt: the handler's first instruction)
 	before []uint64 // cycles consumed before it
 	wdm    []byte
 	final  cpuh.Regs
@@ -241,6 +312,7 @@ func replayCase(c runCase, variant string) (rp replay) {
 			break
 		}
 		opc := mem.Get(pc)
+		opAt := pc
 		nw := len(mem.Writes)
 		n, _, pn := step()
 		if len(rp.pcs) == 0 && (c.latch == 2 || c.latch == 3) && pn == "" {
@@ -248,6 +320,7 @@ func replayCase(c runCase, variant string) (rp replay) {
 			g := get()
 			a := uint32(g.PRK)<<16 | uint32(g.PPC)
 			opc = mem.Get(a)
+			opAt = a
 			for _, w := range mem.Writes[nw:] {
 				if w == a {
 					rp.wdmUnknown = true // the entry sequence or the instruction overwrote its own opcode
@@ -263,6 +336,7 @@ func replayCase(c runCase, variant string) (rp replay) {
 			break
 		}
 		rp.pcs = append(rp.pcs, pc)
+		rp.opAt = append(rp.opAt, opAt)
 		rp.before = append(rp.before, rp.cycles)
 		if opc == 0x42 {
 			rp.wdm = append(rp.wdm, get().WDM)
@@ -277,6 +351,7 @@ func replayCase(c runCase, variant string) (rp replay) {
 // program templates with real control flow (loops, subroutine, WDM, STP) at $00:8000.. or a random bank
 func genRunCase(r *prng.R) runCase {
 	var c runCase
+	hugeOK := false
 	kind := r.N(10)
 	switch {
 	case kind < 5: // structured loop
@@ -292,6 +367,10 @@ func genRunCase(r *prng.R) runCase {
 			return off + len(bs)
 		}
 		n := byte(1 + r.N(12))
+		long := r.Chance(25)
+		if long {
+			n = byte(20 + r.N(236)) // needs well over 256 cycles to leave the loop
+		}
 		o := 0
 		o = put(o, 0xE2, 0x30)       // SEP #$30
 		o = put(o, 0xA2, n)          // LDX #n
@@ -327,10 +406,18 @@ func genRunCase(r *prng.R) runCase {
 			c.cbs = append(c.cbs, addr(r.N(end+2)))
 		}
 		c.max = []uint64{0, 1, 2, 7, 30, 100, 400, 3000}[r.N(8)]
+		if long {
+			c.max = []uint64{255, 256, 257, 300, 1000, 5000, 20000, 70000}[r.N(8)]
+			hugeOK = true
+			c.long = true
+		}
 	default: // random program
 		c.cpuCase = genCPUCase(r.Fork(), -1, kind != 9)
 		c.tag2 = "random"
 		c.max = []uint64{0, 1, 3, 10, 40, 150}[r.N(6)]
+		if r.Chance(8) {
+			c.max = []uint64{256, 257, 400, 1200}[r.N(4)]
+		}
 	}
 	if c.tag2 == "random" || r.Chance(20) {
 		// targets / callbacks from the actual trace
@@ -360,12 +447,25 @@ func genRunCase(r *prng.R) runCase {
 	}
 	c.cbs = cb
 	c.logger = r.Chance(40)
+	if c.logger && r.Chance(65) {
+		c.lkind = 1 + r.N(len(loggerKinds)-1)
+	}
 	c.steps = 0
 	c.latch = 1
 	if r.Chance(15) {
 		c.latch = []byte{2, 3, 3, 0}[r.N(4)] // an NMI / IRQ is pending when RunUntil is entered (or the latch holds the zero value)
 		if r.Chance(50) {
 			c.regs.I = 0
+		}
+	}
+	if hugeOK && r.Chance(30) {
+		// a budget beyond any machine word arithmetic on it, only when the target is known to be reached
+		pre := c
+		pre.max, pre.logger = 20000, false
+		if rp := replayCase(pre, "p"); rp.panic == "" && uint32(rp.final.RK)<<16|uint32(rp.final.PC) == c.target {
+			if ra := replayCase(pre, "a"); ra.panic == "" && uint32(ra.final.RK)<<16|uint32(ra.final.PC) == c.target {
+				c.max = []uint64{1 << 31, 1 << 32, 1<<32 + 5, 1 << 40, 1<<63 - 1, 1 << 63, ^uint64(0)}[r.N(7)]
+			}
 		}
 	}
 	return c
@@ -399,7 +499,18 @@ func runRunUntil() {
 	if err == nil {
 		defer d.Close()
 		reqs := make([]string, 0, 2*n)
-		for _, c := range cases {
+		// the compiled model is slow on runs of thousands of steps: only some of the long loops are sent to it (the others are
+		// still checked against the single-step replay and the Logger-free run)
+		longBudget := min(n/75, 160)
+		var sent []int
+		for i, c := range cases {
+			if c.long {
+				if longBudget == 0 {
+					continue
+				}
+				longBudget--
+			}
+			sent = append(sent, i)
 			reqs = append(reqs, c.line("p"))
 			ca := c
 			ca.logger = false
@@ -408,9 +519,9 @@ func runRunUntil() {
 		var all []string
 		all, err = d.Batch(reqs)
 		if err == nil {
-			for i := 0; i < len(all); i += 2 {
-				repP = append(repP, all[i])
-				repA = append(repA, all[i+1])
+			repP, repA = make([]string, n), make([]string, n)
+			for k, i := range sent {
+				repP[i], repA[i] = all[2*k], all[2*k+1]
 			}
 		}
 	}
@@ -432,7 +543,7 @@ func runRunUntil() {
 			vname := []string{"System.RunUntil (primary)", "RunUntil loop over cpualt"}[vi]
 			rp := replayCase(cc, variant)
 			evals += int64(len(rp.pcs))
-			in := cc.line(variant)
+			in := cc.input(variant)
 			viol := func(clause, exp, act string) {
 				rep.Add(report.Finding{Property: "C12", Kind: "violation", Clause: vname + ": " + clause, Input: in, Expected: exp, Actual: act})
 			}
@@ -479,12 +590,12 @@ func runRunUntil() {
 			// WDM operand = the byte after the opcode (structured programs are not self-modifying)
 			if c.tag2 == "loop" {
 				var expW []byte
-				for _, pc := range rp.pcs {
+				for _, pc := range rp.opAt {
 					if cc.byteAt(pc) == 0x42 {
 						expW = append(expW, cc.byteAt(pc&0xFF0000|uint32(uint16(pc)+1)))
 					}
 				}
-				if string(o.wdm) != string(expW) {
+				if string(o.wdm) != string(expW) && !rp.wdmUnknown {
 					viol("OnWDM did not receive the WDM operand bytes", fmt.Sprintf("%x", expW), fmt.Sprintf("%x", o.wdm))
 				}
 			}
@@ -501,6 +612,18 @@ func runRunUntil() {
 				if o.regs.Canon() != rp.final.Canon() || o.writes != rp.writes {
 					rep.Add(report.Finding{Property: "C14", Kind: "violation", Clause: "running with a Logger changed the final state (compared with the Logger-free replay)", Input: in, Expected: rp.final.Canon() + "|" + rp.writes, Actual: o.regs.Canon() + "|" + o.writes})
 				}
+				// the property's first sentence, directly: the same RunUntil call without a Logger
+				un := cc
+				un.logger = false
+				ou := runSystem(un)
+				if ou.panic == "" && (o.regs.Canon() != ou.regs.Canon() || o.writes != ou.writes || o.reached != ou.reached) {
+					rep.Add(report.Finding{Property: "C14", Kind: "violation", Clause: "RunUntil with a Logger (" + loggerKinds[cc.lkind] + ") ends with other registers / flags / cycle totals / memory than the same call without a Logger",
+						Input: in, Expected: fmt.Sprintf("reached=%v %s|%s (no Logger)", ou.reached, ou.regs.Canon(), ou.writes), Actual: fmt.Sprintf("reached=%v %s|%s", o.reached, o.regs.Canon(), o.writes)})
+				}
+				rep.Count("traced run, Logger: " + loggerKinds[cc.lkind])
+				if rp.cycles > 256 {
+					rep.Count("traced run consuming more than 256 cycles")
+				}
 			}
 			if cc.logger && o.logs != rp.iters {
 				viol("Logger.Write count is not one per loop iteration", fmt.Sprint(rp.iters), fmt.Sprint(o.logs))
@@ -510,7 +633,7 @@ func runRunUntil() {
 			if variant == "a" {
 				reps = repA
 			}
-			if reps != nil && i < len(reps) {
+			if reps != nil && i < len(reps) && reps[i] != "" {
 				got := o.String(rp.cycles)
 				if reps[i] != got {
 					rep.Add(report.Finding{Property: "C12", Kind: "disagreement", Clause: "Lean Sys.runUntil vs " + vname, Input: in, Expected: reps[i] + " (model)", Actual: got + " (go)"})
@@ -535,7 +658,8 @@ func runRunUntil() {
 	rep.Distinct = int64(len(distinct))
 	rep.CountN("cases", int64(2*len(cases)))
 	rep.Rule = "structured programs (SEP; LDX #n; loop: WDM #k; [NOP] [PHA PLA] DEX; BNE loop; STP) and random programs over a seeded 16 MiB image; targets: loop head, exit, start (already there), " +
-		"one past the end, addresses taken from the real trace, random; budgets 0..3000 cycles; 0..3 OnPC callbacks on trace addresses; OnWDM always set; Logger on 40%; " +
+		"one past the end, addresses taken from the real trace, random; budgets 0..3000 cycles, a quarter of the loops run 20..255 times with budgets 255..70000 and (target known to be reached) 2^31..2^64-1; 0..3 OnPC callbacks on trace addresses; OnWDM always set; " +
+		"Logger on 40%: a plain io.Writer or one implementing the optional interfaces RunUntil looks for (Reserver, Committer, both, plus the standard writers' optional interfaces); every traced run is also compared with the same RunUntil call without a Logger; " +
 		"the real emulator.System.RunUntil (primary CPU) and the same loop around cpualt.Step are compared with the compiled Lean Sys.runUntil and with an independent single-step replay. " +
 		"evaluations = instructions executed inside RunUntil"
 	rep.Emit()
